@@ -564,17 +564,22 @@ func c06MaxAndGate(c *Ctx, table *ssa.Global) {
 						}
 						gs := c.edgeGuards(rv, b.Preds[k], b)
 						var hasPred, hasGT bool
+						var extra []string
 						for _, gd := range gs {
-							if strings.HasPrefix(gd, "dynamic call(") || strings.HasPrefix(gd, "one of {") || strings.Contains(gd, "requires") {
-								if !strings.HasPrefix(gd, "!") {
-									hasPred = true
-								}
-							}
-							if strings.HasPrefix(gd, "specs.(version).isGreaterThan(") {
+							switch {
+							case strings.HasPrefix(gd, "dynamic call(") || strings.HasPrefix(gd, "one of {") || (strings.Contains(gd, "requires") && !strings.HasPrefix(gd, "!")):
+								hasPred = true
+							case strings.HasPrefix(gd, "specs.(version).isGreaterThan(") && strings.Contains(gd, `const:"v0.3.0"`):
+								// greater than the running maximum (which starts at v0.3.0)
 								hasGT = true
+							case strings.HasPrefix(gd, "loop(") || strings.HasPrefix(gd, "nonnil(global:validSpecVersions") || strings.HasPrefix(gd, "!specs.(version).isLatest("):
+							default:
+								// anything else makes the minimum depend on more than the features used - e.g.
+								// on the version the Spec declares
+								extra = append(extra, gd)
 							}
 						}
-						r.Check("C06.4", "update-guard", hasPred && hasGT, c.pos(phi), fmt.Sprintf("a version becomes the new maximum only if its predicate holds for the spec and it is greater than the current maximum (conditions %v)", gs))
+						r.Check("C06.4", "update-guard", hasPred && hasGT && len(extra) == 0, c.pos(phi), fmt.Sprintf("a version becomes the new maximum exactly if its predicate holds for the spec and it is greater than the current maximum (conditions %v; not allowed: %v)", gs, extra))
 					}
 				}
 			}
